@@ -244,3 +244,12 @@ def pipeline_radius(steps) -> int:
         elif kind == "cost_volume_confidence":
             rad += 0
     return rad
+
+
+def clamp_interval(disp, W, steps):
+    """keep at least one full matching window of overlap between the images: |d| <= W - window (C02's known finding
+    lives beyond that bound and is judged there, in its own class)"""
+    lim = max(0, W - steps[0][1].get("window_size", 5))
+    a = max(-lim, min(lim, disp[0]))
+    b = max(a, min(lim, disp[1]))
+    return [a, b]
